@@ -438,3 +438,89 @@ def gen_pow(kind):
     lines.append(";\n".join(f"  ({kd}, {nty(*tyk)}, {zl(l)}, {zl(p1)}, {zl(p2)}, {term(n)})" for kd, tyk, l, p1, p2, n in t))
     lines.append("].\n")
     return "\n".join(lines), t
+
+
+# ---------------------------------------------------------------- unchecked operations (wrap exactly)
+UOPS_ARITH = [("UAdd", "add"), ("USub", "sub"), ("UMul", "mul"), ("UDiv", "div")]
+UOPS_BIT = [("UAnd", "BitAnd"), ("UOr", "BitOr"), ("UXor", "BitXor")]
+UOPS_SHIFT = [("UShl", "LShift"), ("UShr", "RShift")]
+
+
+def unsafe_templates(kind):
+    """-> [(uop constructor, (k, s, False), template)]: unsafe_add/sub/mul/div and & | ^ for the 64 integer types,
+    << >> for the two 256-bit types, pow_mod256 for uint256 (operands in variables)."""
+    from vyper import ast as vy_ast
+    from vyper.builtins import functions as BF
+    from vyper.codegen.expr import Expr
+    from vyper.codegen.ir_node import IRnode
+    from vyper.codegen_venom import arithmetic as V
+    from vyper.codegen_venom import expr as VE
+    from vyper.codegen_venom.builtins import math as VM
+    from vyper.semantics.types import IntegerT
+    out = []
+    U256 = IntegerT(False, 256)
+
+    def venom_builtin(fn, T, *extra):
+        def g(b, x, y):
+            a0 = types.SimpleNamespace(_metadata={"type": T})
+            a1 = types.SimpleNamespace(_metadata={"type": T})
+            node = types.SimpleNamespace(args=[a0, a1])
+
+            class FakeExpr:
+                def __init__(self, n, c):
+                    self.n = n
+
+                def lower_value(self):
+                    return x if self.n is a0 else y
+
+            with mock.patch.object(VE, "Expr", FakeExpr):
+                return fn(node, types.SimpleNamespace(builder=b), *extra)
+        ins, r, _, _ = venom_record(g)
+        return ins, r
+
+    with settings_ctx():
+        for k, s, d, T in num_types():
+            if d:
+                continue
+            x = IRnode.from_list("x", typ=T)
+            y = IRnode.from_list("y", typ=T)
+            yu = IRnode.from_list("y", typ=U256)
+            for uop, name in UOPS_ARITH:
+                if kind == "legacy":
+                    inst = BF.DISPATCH_TABLE[f"unsafe_{name}"]
+                    t = type(inst).build_IR.__wrapped__(inst, None, [x, y], {}, None)
+                else:
+                    t = venom_builtin(VM._lower_unsafe_binop, T, name)
+                out.append((uop, (k, s, False), t))
+            ops = UOPS_BIT + (UOPS_SHIFT if k == 32 else [])
+            for uop, cls in ops:
+                op = getattr(vy_ast, cls).__new__(getattr(vy_ast, cls))
+                if kind == "legacy":
+                    t = Expr.handle_binop(op, x, yu if uop in ("UShl", "UShr") else y, None)
+                else:
+                    ins, r, _, _ = venom_record(lambda b, px, py: V.apply_binop(b, op, px, py, T))
+                    t = (ins, r)
+                out.append((uop, (k, s, False), t))
+            if k == 32 and not s:
+                if kind == "legacy":
+                    a0, a1 = object(), object()
+                    expr = types.SimpleNamespace(args=[a0, a1])
+                    with mock.patch.object(BF.Expr, "parse_value_expr", staticmethod(lambda e, c: x if e is a0 else y)):
+                        inst = BF.DISPATCH_TABLE["pow_mod256"]
+                        t = inst.build_IR(expr, None)
+                else:
+                    t = venom_builtin(VM.lower_pow_mod256, T)
+                out.append(("UPowMod", (k, s, False), t))
+    return out
+
+
+def gen_unsafe(kind):
+    t = unsafe_templates(kind)
+    name = "legacy_unsafes" if kind == "legacy" else "venom_unsafes"
+    ty = "lir" if kind == "legacy" else "vtemplate"
+    term = lir_term if kind == "legacy" else (lambda n: vtemplate_term(*n))
+    lines = [HEADER.replace("C03.ArithSpec.", "C03.ArithSpec C03.UnsafeExact."),
+             f"Definition {name} : list (uop * nty * {ty}) := ["]
+    lines.append(";\n".join(f"  ({uop}, {nty(*tyk)}, {term(n)})" for uop, tyk, n in t))
+    lines.append("].\n")
+    return "\n".join(lines), t
